@@ -65,7 +65,7 @@ def run(ctx):
     # recorded refusal checked before anything is accepted
     tk = [bi for bi in fa.call_blocks('core::mem::take') if 'error' in local_field_sources(fa, op_local(fa.term[bi]['args'][0]))]
     ctx.require(tk, 'R20.1: self.error is not consulted')
-    ek = [k for k, d in scrutinees(fa, OPTION).items() if d['root'] == fa.term[tk[0]]['d'][0]]
+    ek = sorted([k for k, d in scrutinees(fa, OPTION).items() if d['root'] == fa.term[tk[0]]['d'][0]], key=len)
     ctx.require(ek, 'R20.1: Option of self.error not matched')
     entries, region = fa.arm_entries(OPTION, {'Some'}, ek[0])
     ctx.ob('R20.1', 'recorded refusal -> Err', bool(region) and not any(bi in fa.reach_from(entries) for bi, s, v in acc), 'if this side refused the peer (self.error) nothing is accepted', fa.loc(tk[0]))
